@@ -3,6 +3,7 @@ group instantiation, the tracer, the TLC runner and the evidence writer.
 
 Nothing here computes an expected value: the harness moves bytes between the
 real code and TLC.  Expected values come from the TLA+ specification."""
+import zlib
 import ast, atexit, binascii, hashlib, json, os, re, shutil, subprocess, sys
 import tempfile, threading, time, types
 
@@ -85,6 +86,21 @@ TOY_INT = {  # name: (p, q, g)
     "i67": (67, 11, 64),        # same q and element size as i23, another p
     "i787": (787, 131, 64),     # same q and element size as i263 (g = 2^6: order 131)
 }
+
+
+_zoo = {}
+
+
+def zoo():
+    """custom (p, q, g) of unusual but valid shapes (harness/zoo.json, written once by gen_zoo.py): safe primes with
+    p = 3 and 7 mod 8, q above 2^256, one-byte q in a wide field, p and q exactly filling their bytes, large
+    generators, derivation lengths of several hash blocks plus a partial one.  Inputs only: the specification
+    re-checks each group it is handed."""
+    if not _zoo:
+        with open(os.path.join(os.path.dirname(os.path.abspath(__file__)), "zoo.json")) as f:
+            for n, z in json.load(f).items():
+                _zoo[n] = (int(z["p"], 16), int(z["q"], 16), int(z["g"], 16))
+    return _zoo
 
 
 def medium_group(qbits=40, pbits=72, seed=1):
@@ -211,7 +227,7 @@ class Universe:
             p, q, g = G.p, G.q, G.Base._e
         else:
             if p is None:
-                p, q, g = TOY_INT[name]
+                p, q, g = TOY_INT[name] if name in TOY_INT else zoo()[name]
             G = sp.groups.IntegerGroup(p=p, q=q, g=g)
         self.groups[name] = G
         # shipped groups are described to the specification by their PUBLISHED constants, never by the live ones
@@ -264,7 +280,7 @@ class Universe:
                 raise MachineryError("shipped parameter set %s is not over %s" % (name, grp))
         else:
             G = self.group(grp)
-            if (M, N, S) == (b"M", b"N", b"symmetric") and (grp in TOY_INT or grp in TOY_CURVES):
+            if (M, N, S) == (b"M", b"N", b"symmetric") and (grp in TOY_INT or grp in TOY_CURVES or grp in zoo()):
                 M, N, S = self.toy_seeds(grp)
             P = sp.params._Params(G, M=M, N=N, S=S)
         self.params[name] = P
@@ -393,17 +409,48 @@ class Trace:
         sp = load_repo()
         return {"A": sp.SPAKE2_A, "B": sp.SPAKE2_B, "S": sp.SPAKE2_Symmetric}[cls]
 
-    def new(self, cls, ps, pw, idA=b"", idB=b"", entropy=None):
+    NSHAPES = 5
+
+    def _from_serialized(self, cls, data, P):
+        """from_serialized(data, params=DefaultParams): keyword, positional, or left out when it is the default"""
+        K = self._cls(cls)
+        k = (zlib.crc32(self.name.encode()) + self.n) % 3
+        if k == 1:
+            return K.from_serialized(data, P)
+        if k == 2 and P is getattr(load_repo().spake2, "DefaultParams", None):
+            return K.from_serialized(data)
+        return K.from_serialized(data, params=P)
+
+    def _construct(self, K, cls, pw, idA, idB, P, ent, shape):
+        """The documented signatures are SPAKE2_A/B(password, idA=b"", idB=b"", params=DefaultParams,
+        entropy_f=os.urandom) and SPAKE2_Symmetric(password, idSymmetric=b"", params=.., entropy_f=..): every Python
+        call shape that binds the same values describes the same session (the `new` event records the values, not
+        the shape), so the drivers rotate through them."""
+        shape %= self.NSHAPES
+        ids = [idA] if cls == "S" else [idA, idB]
+        names = ["idSymmetric"] if cls == "S" else ["idA", "idB"]
+        if shape == 1:                                   # everything positional
+            return K(pw, *(ids + [P, ent]))
+        if shape == 2:                                   # identities positional, options by keyword
+            return K(pw, *ids, entropy_f=ent, params=P)
+        if shape == 3:                                   # defaults left out, the rest by keyword
+            kw = {n: v for n, v in zip(names, ids) if v != b""}
+            return K(pw, params=P, entropy_f=ent, **kw)
+        if shape == 4:                                   # first identity positional, the rest by keyword; default params left out
+            kw = dict(zip(names[1:], ids[1:]))
+            if P is not getattr(load_repo().spake2, "DefaultParams", None):
+                kw["params"] = P
+            return K(pw, ids[0], entropy_f=ent, **kw)
+        return K(pw, entropy_f=ent, params=P, **dict(zip(names, ids)))     # shape 0: everything by keyword
+
+    def new(self, cls, ps, pw, idA=b"", idB=b"", entropy=None, shape=None):
         del _entlog()[:]
         self.n += 1
         inst = "i%d" % self.n
         P = self.uni.params[ps]
         K = self._cls(cls)
         ent = entropy if entropy is not None else (FalsyEntropy(b"") if self.n % 2 == 1 else Entropy(b""))
-        if cls == "S":
-            o = K(pw, idSymmetric=idA, params=P, entropy_f=ent)
-        else:
-            o = K(pw, idA=idA, idB=idB, params=P, entropy_f=ent)
+        o = self._construct(K, cls, pw, idA, idB, P, ent, (zlib.crc32(self.name.encode()) + self.n) if shape is None else shape)
         self.objs[inst] = o
         self._ev({"op": "new", "inst": inst, "cls": cls, "ps": ps, "pw": hx(pw),
                   "idA": hx(idA), "idB": hx(idB)})
@@ -455,7 +502,7 @@ class Trace:
         self.n += 1
         inst = "i%d" % self.n
         try:
-            o = self._cls(cls).from_serialized(data, params=self.uni.params[ps])
+            o = self._from_serialized(cls, data, self.uni.params[ps])
             self.objs[inst] = o
             out = {"t": "inst", "outbound": hx(o.outbound_message)}
         except Exception as e:
@@ -476,7 +523,7 @@ class Trace:
         self.n += 1
         inst = "i%d" % self.n
         try:
-            o = self._cls(cls).from_serialized(data, params=self.uni.params[ps])
+            o = self._from_serialized(cls, data, self.uni.params[ps])
             self.objs[inst] = o
             out = {"t": "inst", "outbound": hx(getattr(o, "outbound_message", b""))}
         except Exception as e:
